@@ -316,10 +316,10 @@ func keySort(s Sort) Sort {
 
 // Ctx collects declarations (constants, functions) shared by all queries of one function verification.
 type Ctx struct {
-	decls   []string          // declaration lines in order
-	declSet map[string]Sort   // name -> sort (constants) / "fun" marker
-	counter map[string]int    // fresh-name counters by prefix
-	axioms  []string          // global axioms (asserted in every query)
+	decls   []string        // declaration lines in order
+	declSet map[string]Sort // name -> sort (constants) / "fun" marker
+	counter map[string]int  // fresh-name counters by prefix
+	axioms  []string        // global axioms (asserted in every query)
 	axSet   map[string]bool
 }
 
@@ -403,7 +403,12 @@ func (c *Ctx) Axiom(a string) {
 }
 
 // Query renders a full SMT-LIB script: assumptions ∧ ¬goal.
-func (c *Ctx) Query(assumptions []Term, goal Term, wantModel bool) string {
+func (c *Ctx) Query(assumptions []Term, goal Term, wantModel bool, values ...Term) string {
+	defer func() {}()
+	return c.query(assumptions, goal, wantModel, values)
+}
+
+func (c *Ctx) query(assumptions []Term, goal Term, wantModel bool, values []Term) string {
 	var b strings.Builder
 	if wantModel {
 		b.WriteString("(set-option :produce-models true)\n")
@@ -431,6 +436,16 @@ func (c *Ctx) Query(assumptions []Term, goal Term, wantModel bool) string {
 	b.WriteString("))\n(check-sat)\n")
 	if wantModel {
 		b.WriteString("(get-model)\n")
+	}
+	if wantModel && len(values) > 0 {
+		b.WriteString("(echo \"@@values\")\n(get-value (")
+		for i, v := range values {
+			if i > 0 {
+				b.WriteString(" ")
+			}
+			b.WriteString(v.S)
+		}
+		b.WriteString("))\n")
 	}
 	return b.String()
 }
